@@ -261,7 +261,21 @@ class Composite(LexicalParent[Node], HasCreator, Node, ABC):
             self._parse_remotely_executed_self(run_output)
         return self._outputs_to_run_return()
 
+    def _static_io_panels(self):
+        """The IO panels this object holds itself (a workflow's data IO is only a view)."""
+        panels = [
+            panel
+            for panel in (self.__dict__.get("_inputs"), self.__dict__.get("_outputs"))
+            if panel is not None
+        ]
+        return panels + [self.signals.input, self.signals.output]
+
     def _parse_remotely_executed_self(self, other_self):
+        # The copy knows nothing about our neighbours: remember them
+        local_connection_data = [
+            [(c, c.label, c.connections) for c in io_panel]
+            for io_panel in self._static_io_panels()
+        ]
         # Un-parent existing nodes before ditching them
         for node in self:
             node._parent = None
@@ -270,10 +284,39 @@ class Composite(LexicalParent[Node], HasCreator, Node, ABC):
         state = self._get_state_from_remote_other(other_self)
         self.__setstate__(state)
 
+        for old_data, io_panel in zip(
+            local_connection_data, self._static_io_panels(), strict=False
+        ):
+            for original_channel, label, connections in old_data:
+                new_channel = io_panel[label]  # Fetch it from the fresh IO panel
+                new_channel.owner = self  # It came with the copy as its owner
+                new_channel.connections = connections
+                for other_channel in connections:
+                    self._replace_connection(
+                        other_channel, original_channel, new_channel
+                    )
+                # Value links across our boundary live in the parent's scope
+                receiver = getattr(original_channel, "value_receiver", None)
+                if receiver is not None and receiver.owner is self.parent:
+                    new_channel.value_receiver = receiver
+                if self.parent is not None:
+                    for parent_panel in self.parent._static_io_panels()[:-2]:
+                        for parent_channel in parent_panel:
+                            if parent_channel.value_receiver is original_channel:
+                                parent_channel.value_receiver = new_channel
+
+    @staticmethod
+    def _replace_connection(channel, old_connection, new_connection):
+        """Brute-force replace an old connection in a channel with a new one"""
+        channel.connections = [
+            c if c is not old_connection else new_connection for c in channel
+        ]
+
     def _get_state_from_remote_other(self, other_self):
         state = other_self.__getstate__()
         state.pop("executor")  # Got overridden to None for __getstate__, so keep local
         state.pop("_parent")  # Got overridden to None for __getstate__, so keep local
+        state.pop("_detached_parent_path", None)  # Describes the copy, so keep local
         return state
 
     def disconnect_run(self) -> list[tuple[InputSignal, OutputSignal]]:
